@@ -423,3 +423,131 @@ mod hq {
 
     // @PLAYBACK hq@
 }
+
+/// The tuple -> context conversions every generated dispatch arm goes through (sylvia/src/ctx.rs),
+/// driven on their own: the context holds the caller's deps, env and -- for exec / instantiate --
+/// sender and funds UNCHANGED, for 0, 1 and 2 coins with symbolic amounts (zero included).
+#[cfg(kani)]
+mod hc {
+    use support::env::{mk_env, see_deps, see_deps_mut, see_env, see_info, one_char, Seen, World};
+    use sylvia::ctx::{ExecCtx, InstantiateCtx, MigrateCtx, QueryCtx, SudoCtx};
+    use sylvia::cw_std::{Addr, Coin, Empty, Env, MessageInfo, Uint128};
+
+    struct Cin {
+        s: u8,
+        a: u8,
+        q: u8,
+        height: u64,
+        time: u64,
+        tx: Option<u32>,
+        c0: u8,
+    }
+
+    fn any_cin() -> Cin {
+        let c0: u8 = kani::any();
+        kani::assume(c0 < 128);
+        let i = Cin { s: kani::any(), a: kani::any(), q: kani::any(), height: kani::any(), time: kani::any(), tx: if kani::any() { Some(kani::any()) } else { None }, c0 };
+        kani::assume(i.s != 0 && i.a != 0 && i.q != 0);
+        i
+    }
+
+    fn check_env_deps(i: &Cin, w: &World, seen: &Seen) {
+        assert!(seen.storage == i.s, "caller's storage");
+        assert!(w.api.seen.get() == i.a, "caller's api");
+        assert!(w.querier.seen.get() == i.q, "caller's querier");
+        assert!(seen.height == i.height && seen.time == i.time, "env.block");
+        assert!(seen.has_tx == i.tx.is_some(), "env.transaction presence");
+        if let Some(ix) = i.tx {
+            assert!(seen.tx_index == ix, "env.transaction.index");
+        }
+        assert!(seen.contract0 == i.c0, "env.contract.address");
+    }
+
+    fn info_n(sender0: u8, n: usize, amt: [u128; 2]) -> MessageInfo {
+        let mut funds = Vec::with_capacity(2);
+        let mut k = 0;
+        while k < n {
+            funds.push(Coin { denom: String::new(), amount: Uint128::new(amt[k]) });
+            k += 1;
+        }
+        MessageInfo { sender: Addr::unchecked(one_char(sender0)), funds }
+    }
+
+    fn check_info(info: &MessageInfo, sender0: u8, n: usize, amt: [u128; 2]) {
+        let mut seen = Seen::ZERO;
+        see_info(&mut seen, info);
+        assert!(seen.sender0 == sender0 && seen.sender_len == 1, "info.sender unchanged");
+        assert!(info.funds.len() == n, "info.funds: no coin added or dropped");
+        if n >= 1 {
+            assert!(info.funds[0].amount.u128() == amt[0] && info.funds[0].denom.is_empty(), "info.funds[0] unchanged");
+        }
+        if n >= 2 {
+            assert!(info.funds[1].amount.u128() == amt[1] && info.funds[1].denom.is_empty(), "info.funds[1] unchanged (order kept)");
+        }
+    }
+
+    macro_rules! ctx_with_info {
+        ($name:ident, $ctx:ident, $n:literal) => {
+            #[kani::proof]
+            #[kani::unwind(4)]
+            fn $name() {
+                let i = any_cin();
+                let sender0: u8 = kani::any();
+                kani::assume(sender0 < 128);
+                let amt: [u128; 2] = kani::any();
+                let mut w = World::new(i.s, i.a, i.q);
+                let mut seen = Seen::ZERO;
+                {
+                    let mut ctx: $ctx<'_, Empty> = (w.deps_mut::<Empty>(), mk_env(i.height, i.time, i.tx, i.c0), info_n(sender0, $n, amt)).into();
+                    see_env(&mut seen, &ctx.env);
+                    see_deps_mut(&mut seen, &mut ctx.deps);
+                    check_info(&ctx.info, sender0, $n, amt);
+                    core::mem::forget(ctx);
+                }
+                check_env_deps(&i, &w, &seen);
+                kani::cover!(amt[0] == 0, "zero-amount coin");
+            }
+        };
+    }
+    ctx_with_info!(ctx_exec_0, ExecCtx, 0);
+    ctx_with_info!(ctx_exec_1, ExecCtx, 1);
+    ctx_with_info!(ctx_exec_2, ExecCtx, 2);
+    ctx_with_info!(ctx_inst_0, InstantiateCtx, 0);
+    ctx_with_info!(ctx_inst_1, InstantiateCtx, 1);
+    ctx_with_info!(ctx_inst_2, InstantiateCtx, 2);
+
+    #[kani::proof]
+    #[kani::unwind(4)]
+    fn ctx_without_info() {
+        let i = any_cin();
+        let sel: u8 = kani::any();
+        kani::assume(sel < 3);
+        let mut w = World::new(i.s, i.a, i.q);
+        let mut seen = Seen::ZERO;
+        let env: Env = mk_env(i.height, i.time, i.tx, i.c0);
+        match sel {
+            0 => {
+                let mut ctx: MigrateCtx<'_, Empty> = (w.deps_mut::<Empty>(), env).into();
+                see_env(&mut seen, &ctx.env);
+                see_deps_mut(&mut seen, &mut ctx.deps);
+                core::mem::forget(ctx);
+            }
+            1 => {
+                let mut ctx: SudoCtx<'_, Empty> = (w.deps_mut::<Empty>(), env).into();
+                see_env(&mut seen, &ctx.env);
+                see_deps_mut(&mut seen, &mut ctx.deps);
+                core::mem::forget(ctx);
+            }
+            _ => {
+                let ctx: QueryCtx<'_, Empty> = (w.deps::<Empty>(), env).into();
+                see_env(&mut seen, &ctx.env);
+                see_deps(&mut seen, &ctx.deps);
+                core::mem::forget(ctx);
+            }
+        }
+        check_env_deps(&i, &w, &seen);
+        kani::cover!(sel == 2, "query context");
+    }
+
+    // @PLAYBACK hc@
+}
